@@ -303,7 +303,9 @@ class LQR(nn.Module):
             :math:`\mathbf{x}`, the solved input sequence :math:`\mathbf{u}`, and the
             associated quadratic costs :math:`\mathbf{c}` over the time horizon.
         '''
+        self.system.reset()
         K, k = self.lqr_backward(x_init, dt, u_traj, u_lower, u_upper, du)
+        self.system.reset()
         x, u, cost = self.lqr_forward(x_init, K, k, u_lower, u_upper, du)
         return x, u, cost
 
